@@ -433,6 +433,12 @@ def fixed_units():
         dict(kind="table", table_name="esc_q", schema=None, columns=[
             dict(name="note", type="varchar", default=None, ref=None), dict(name="price", type="decimal", default=None, ref=None),
             dict(name="code", type="char", default="'x'", ref=None), dict(name="b", type="int", default=None, ref=None)]))]
+    # T-SQL IDENTITY: a column option keyword like any other (its letter case does not matter)
+    u["table-identity"] = [Stmt("table",
+        "~CREATE ~TABLE idn_t ( id int ~IDENTITY ( 1 , 1 ) ~NOT ~NULL , label varchar ( 20 ) ~NULL , seq_no bigint ~IDENTITY ( 100 , 5 ) ) ;",
+        dict(kind="table", table_name="idn_t", schema=None, columns=[
+            dict(name="id", type="int", default=None, ref=None), dict(name="label", type="varchar", default=None, ref=None),
+            dict(name="seq_no", type="bigint", default=None, ref=None)]))]
     base = "~CREATE ~TABLE emp ( id int , dept int , code varchar ( 4 ) ) ;"
     bf = dict(kind="table", table_name="emp", schema=None, columns=[dict(name="id", type="int", default=None, ref=None), dict(name="dept", type="int", default=None, ref=None),
                                                                     dict(name="code", type="varchar", default=None, ref=None)])
